@@ -90,10 +90,39 @@ def check_requirement(F, f, block, req):
     """Machine-checkable discharge conditions of a reviewed failure site.
        guard:<callee>:<true|false>   site is edge-dominated by that outcome of a test `callee(..)` in the same function
        after:<callee>                site is dominated by a call to callee
-       between:<A>:<B>:<C>           every path from a call to A to a call to C passes through a call to B"""
+       between:<A>:<B>:<C>           every path from a call to A to a call to C passes through a call to B
+       infn:<function>|<requirement> the requirement holds in another function (cross-function invariants)
+       paired:<A>|<B>|<const>        every call to A is dominated by a call to B that carries the constant <const>
+                                     and acts on the same parameter as A's receiver (A must occur)"""
     from cfgq import calls_to, call_result_edges, must_pass
     parts = req.split(":")
     kind = parts[0]
+    if kind == "infn":
+        fn, inner = req[len("infn:"):].split("|", 1)
+        gs = [g for g in F.find(fn) if not g.is_closure()]
+        if len(gs) != 1:
+            return False, f"anchor-missing: function `{fn}` found {len(gs)} times"
+        return check_requirement(F, gs[0], None, inner)
+    if kind == "paired":
+        a, b_, cpath = req[len("paired:"):].split("|")
+        A = calls_to(f, a)
+        B = [(x, t) for alt in b_.split(",") for x, t in calls_to(f, alt)
+             if any((arg.get("const") or {}).get("path", "").endswith(cpath) for arg in t.get("args", []))]
+        if not A:
+            return False, f"anchor-missing: no call to `{a}` in {f.key}"
+        for x, t in A:
+            recv = {l for l in leaves(resolve(f, t["args"][0])) if l.startswith("param:")}
+            ok = False
+            for y, tb in B:
+                rb = {l for l in leaves(resolve(f, tb["args"][0])) if l.startswith("param:")}
+                if not (recv and recv <= rb):
+                    continue
+                nxt = f.blocks[x]["term"].get("target")
+                if f.node_dominates(y, x) or (nxt is not None and must_pass(f, [nxt], [y], list(f.returns()))):
+                    ok = True
+            if not ok:
+                return False, f"`{a}` at {f.where(x)} is not accompanied on every path by `{b_}` with {cpath} on the same object"
+        return True, ""
     if kind == "guard":
         callee, pol = ":".join(parts[1:-1]), parts[-1]
         cs = calls_to(f, callee)
